@@ -173,9 +173,12 @@ static int verify_all_fsr(struct jls_rd_s *rd, const model_t *m, const verify_op
                 else if (got < exp && tail_stored == 0) cls = "tail-omitted";
                 else if (got < exp) cls = "missing-on-disk";
             }
-            snprintf(key, sizeof(key), "length|%s|%s|bits%s8|%s", got < exp ? "short" : "long", cls, s->dt->bits <= 8 ? "<=" : ">", fk(o));
-            v_violation(o->prop_len, key, wj, "signal %d length %lld, submitted span %lld", sig, (long long) got, (long long) exp);
-            bad++;
+            if (o->tolerate_omitted_tail && !strcmp(cls, "tail-omitted-partial") && s->omit_ever && s->dt->bits > 8) v_count(o->prop_len, "lengths_rounded_down_by_requested_omission_of_tail", 1);
+            else {
+                snprintf(key, sizeof(key), "length|%s|%s|bits%s8|%s", got < exp ? "short" : "long", cls, s->dt->bits <= 8 ? "<=" : ">", fk(o));
+                v_violation(o->prop_len, key, wj, "signal %d length %lld, submitted span %lld", sig, (long long) got, (long long) exp);
+                bad++;
+            }
         }
         int64_t lim = got < exp ? got : exp;
         gen_windows(&wins, &nw, &cap, sig, lim, spd, o->windows, o->rng, s->dt->bits);
